@@ -48,6 +48,8 @@ Verdict0(e, i) ==
       [] e.e = "FrHash" -> JudgeFrHash(e, i)
       [] e.e = "FrFloat" -> JudgeFrFloat(e, i)
       [] e.e = "FrFromFloat" -> JudgeFrFromFloat(e, i)
+      [] e.e = "FrCtad" -> JudgeFrCtad(e, i)
+      [] e.e = "FrCtadInt" -> JudgeFrCtadInt(e, i)
       [] e.e = "WBin" -> JudgeWBin(e, i)
       [] e.e = "WUn" -> JudgeWUn(e, i)
       [] e.e = "WShift" -> JudgeWShift(e, i)
@@ -92,7 +94,7 @@ AsCoded(e, i) ==
       [] e.e = "Exp2" ->
            IF ExpOf(i.lt) >= 0 THEN FALSE
            ELSE LET r == AsCodedExp2(J(e.x), AsIntT(InnerT(i.lt)), ExpOf(i.lt)) IN ~r.ub /\ e.out = "ok" /\ J(e.res) = r.v
-      [] e.e = "FrFromFloat" ->
+      [] e.e \in {"FrFromFloat", "FrCtad"} ->
            IF e.x.c # "fin" THEN FALSE
            ELSE MatchesMakeFraction(AsCodedMakeFraction(e.x, i.lt.p, AsIntT(i.rt.num)), e.out, J(e.res[1]), J(e.res[2]))
       [] e.e = "ScConv" ->
